@@ -2411,3 +2411,60 @@ let finite_lit lit =
   match classify lit with
   | CInf -> false
   | _ -> true
+
+(** val widen_f32 : coq_Z -> coq_Z **)
+
+let widen_f32 bits =
+  let sign =
+    Z.div bits
+      (Z.pow (Zpos (Coq_xO Coq_xH)) (Zpos (Coq_xI (Coq_xI (Coq_xI (Coq_xI
+        Coq_xH))))))
+  in
+  let e =
+    Z.modulo
+      (Z.div bits
+        (Z.pow (Zpos (Coq_xO Coq_xH)) (Zpos (Coq_xI (Coq_xI (Coq_xI (Coq_xO
+          Coq_xH)))))))
+      (Z.pow (Zpos (Coq_xO Coq_xH)) (Zpos (Coq_xO (Coq_xO (Coq_xO Coq_xH)))))
+  in
+  let m =
+    Z.modulo bits
+      (Z.pow (Zpos (Coq_xO Coq_xH)) (Zpos (Coq_xI (Coq_xI (Coq_xI (Coq_xO
+        Coq_xH))))))
+  in
+  let s64 =
+    Z.mul sign
+      (Z.pow (Zpos (Coq_xO Coq_xH)) (Zpos (Coq_xI (Coq_xI (Coq_xI (Coq_xI
+        (Coq_xI Coq_xH)))))))
+  in
+  if (&&) (Z.eqb e Z0) (Z.eqb m Z0)
+  then s64
+  else if Z.eqb e Z0
+       then let k = Z.log2 m in
+            Z.add
+              (Z.add s64
+                (Z.mul
+                  (Z.add
+                    (Z.sub k (Zpos (Coq_xI (Coq_xO (Coq_xI (Coq_xO (Coq_xI
+                      (Coq_xO (Coq_xO Coq_xH))))))))) (Zpos (Coq_xI (Coq_xI
+                    (Coq_xI (Coq_xI (Coq_xI (Coq_xI (Coq_xI (Coq_xI (Coq_xI
+                    Coq_xH)))))))))))
+                  (Z.pow (Zpos (Coq_xO Coq_xH)) (Zpos (Coq_xO (Coq_xO (Coq_xI
+                    (Coq_xO (Coq_xI Coq_xH)))))))))
+              (Z.mul (Z.sub m (Z.pow (Zpos (Coq_xO Coq_xH)) k))
+                (Z.pow (Zpos (Coq_xO Coq_xH))
+                  (Z.sub (Zpos (Coq_xO (Coq_xO (Coq_xI (Coq_xO (Coq_xI
+                    Coq_xH)))))) k)))
+       else Z.add
+              (Z.add s64
+                (Z.mul
+                  (Z.add
+                    (Z.sub e (Zpos (Coq_xI (Coq_xI (Coq_xI (Coq_xI (Coq_xI
+                      (Coq_xI Coq_xH)))))))) (Zpos (Coq_xI (Coq_xI (Coq_xI
+                    (Coq_xI (Coq_xI (Coq_xI (Coq_xI (Coq_xI (Coq_xI
+                    Coq_xH)))))))))))
+                  (Z.pow (Zpos (Coq_xO Coq_xH)) (Zpos (Coq_xO (Coq_xO (Coq_xI
+                    (Coq_xO (Coq_xI Coq_xH)))))))))
+              (Z.mul m
+                (Z.pow (Zpos (Coq_xO Coq_xH)) (Zpos (Coq_xI (Coq_xO (Coq_xI
+                  (Coq_xI Coq_xH)))))))
